@@ -25,7 +25,7 @@ import (
 
 func init() {
 	register(&Scenario{Name: "stack", Prop: "C14", Doc: "for a tape-chosen discovered model server / memory device and Get/Update/Pull triple of its services: client -> wrapper -> router -> wrapper -> server; short histories of Update (random message, valid/invalid/nil update mask) and Get (nil/valid read mask) with 0-2 open Pull streams (keeping-up readers; updates-only or not); relational register laws checked at quiescence after every RPC",
-		Run:  stackRun,
+		Run: stackRun,
 		Info: func() any {
 			triplesOnce.Do(discoverTriples)
 			var cov []string
@@ -38,17 +38,17 @@ func init() {
 }
 
 type triple struct {
-	entry               svcEntry
-	server              func() any
-	what                string // "<pkg>.<server kind>"
-	x                   string
-	get, update, pull   protoreflect.MethodDescriptor
-	resource            protoreflect.MessageDescriptor
-	updField            protoreflect.FieldDescriptor // field of the update request holding the resource
-	changesField        protoreflect.FieldDescriptor // repeated changes in the pull response
-	changeValue         protoreflect.FieldDescriptor // field of a change holding the resource
-	changeName          protoreflect.FieldDescriptor
-	uncovered           string
+	entry             svcEntry
+	server            func() any
+	what              string // "<pkg>.<server kind>"
+	x                 string
+	get, update, pull protoreflect.MethodDescriptor
+	resource          protoreflect.MessageDescriptor
+	updField          protoreflect.FieldDescriptor // field of the update request holding the resource
+	changesField      protoreflect.FieldDescriptor // repeated changes in the pull response
+	changeValue       protoreflect.FieldDescriptor // field of a change holding the resource
+	changeName        protoreflect.FieldDescriptor
+	uncovered         string
 }
 
 var (
